@@ -389,8 +389,16 @@ func typeFacts(t types.Type, v Value, heaptop0 *Term) []*Term {
 			heaptop = topOf(x, heaptop0)
 		case SliceV:
 			heaptop = topOf(x.Ref, heaptop0)
+			if _, _, fresh := allocInfo(x.Ref); fresh {
+				heaptop = nil // an object allocated on this path lies above every earlier frontier: no upper bound is stated
+			}
 		case IfaceV:
 			heaptop = topOf(x.Val, heaptop0)
+			if _, _, fresh := allocInfo(x.Val); fresh {
+				// (the payload of an error this function built itself, reached through errors.Is unfolding, was once bounded by
+				// the *entry* frontier: the path condition became contradictory and every clause held vacuously on such paths)
+				heaptop = nil
+			}
 		}
 	}
 	switch x := v.(type) {
